@@ -405,6 +405,46 @@ class Program(object):
         self._mutated = out
         return out
 
+    def registered_never_none(self, meth, owner=None):
+        """Does the method `meth` of every class registered through a `@<Owner>.register(...)` decorator return a
+        value on every path (never None, explicitly or by falling off the end)?  Such a method, called through a
+        registry (`Owner.registered_tlvs[code].unpack(...)`), yields a typed opaque object."""
+        cache = self.__dict__.setdefault('_rnn', {})
+        ckey = (meth, owner)
+        if ckey in cache:
+            return cache[ckey]
+
+        def leaves(stmts):
+            for st in stmts:
+                if isinstance(st, (ast.Return, ast.Raise)):
+                    return True
+                if isinstance(st, ast.If) and st.orelse and leaves(st.body) and leaves(st.orelse):
+                    return True
+                if isinstance(st, ast.Try) and leaves(st.body) and all(leaves(h.body) for h in st.handlers):
+                    return True
+            return False
+        n = 0
+        ok = True
+        for m in self.modules.values():
+            for c in m.classes.values():
+                if not any(isinstance(d, ast.Call) and isinstance(d.func, ast.Attribute) and d.func.attr == 'register'
+                           and (owner is None or src_of(d.func.value).split('.')[-1] == owner)
+                           for d in c.node.decorator_list):
+                    continue
+                f = c.find_method(meth)
+                if f is None:
+                    continue        # the call raises AttributeError: no value at all, in particular not None
+                n += 1
+                if not leaves(f.node.body):
+                    ok = False
+                for r in ast.walk(f.node):
+                    if isinstance(r, ast.Return) and not isinstance(
+                            r.value, (ast.Call, ast.Dict, ast.List, ast.Tuple, ast.BinOp, ast.JoinedStr, ast.DictComp,
+                                      ast.ListComp)):
+                        ok = False
+        cache[ckey] = ok and n > 0
+        return cache[ckey]
+
     # ------------------------------------------------------------------ constant folding
     def fold(self, expr, module, cls=None, env=None, _depth=0):
         """Fold an expression to a Python value or raise NotConst."""
